@@ -4,6 +4,7 @@ package c12
 // (tens of thousands of rotations), which short operation sequences cannot reach.
 
 import (
+	"bytes"
 	"fmt"
 	"sync"
 	"testing"
@@ -18,12 +19,55 @@ import (
 	"verif/internal/vt"
 )
 
-var recLong = ev.New("c12/long-run", "rapid: one provider driven through 66 000..80 000 rotations (180..230 years of virtual time; more than 2^16 key identifiers) inside a synctest bubble: between consecutive Current() calls virtual time advances by a gap from a per-run pattern {24 h, 24 h + 1 ns, 24..25 h, 6 h with an occasional 3..5 day gap}. Oracle at every step: the key returned is within its validity and was generated <= 24 h ago, its identifier was never returned for another key before (all identifiers kept), Get of the identifier succeeds now, Get of the identifier handed out more than 3 days of key age ago fails. One evaluation = one Current() call. Non-trivial: every call after the first rotation; distinct by (pattern, step)")
+var recLong = ev.New("c12/long-run", "rapid: one provider driven through 66 000..80 000 rotations (180..230 years of virtual time; more than 2^16 key identifiers) inside a synctest bubble: between consecutive Current() calls virtual time advances by a gap from a per-run pattern {24 h, 24 h + 1 ns, 24..25 h, 6 h with an occasional 3..5 day gap}. Oracle at every step: the key returned is within its validity and was generated <= 24 h ago, its identifier was never returned for another key before (all identifiers kept), Get of the identifier succeeds now, Get of the identifier handed out more than 3 days of key age ago fails; a cookie sealed under the key as the servers seal it (EncryptWithNonce with the key's identifier, Encode) can be redeemed the way the listeners do (Decode, key lookup by the identifier the cookie carries, Decrypt, same session keys) at once and at every later call within two days of its issue. One evaluation = one Current() call. Non-trivial: every call after the first rotation; distinct by (pattern, step)")
 
 // The bubble's clock starts in the year 2000 and the runtime's timers overflow in 2262 (a sleep that would end
 // later crashes the runtime), so a run ends after 250 years of virtual time at the latest; with gaps just above
 // the renewal interval that is enough for more than 2^16 rotations (with gaps of exactly 24 h the provider rotates
 // every second call only, and the run ends after ~45 000 rotations).
+// A cookie as both servers issue it (core/server/ntske.go, and the fresh cookies of every NTP reply): sealed under
+// the key Current() returned, carrying that key's identifier.
+var sessC2S, sessS2C = bytes.Repeat([]byte{0xc2}, 32), bytes.Repeat([]byte{0x52}, 32)
+
+func issue(k ntske.Key) ([]byte, error) {
+	sc := ntske.ServerCookie{Algo: ntske.AES_SIV_CMAC_256, C2S: sessC2S, S2C: sessS2C}
+	e, err := sc.EncryptWithNonce(k.Value, k.ID)
+	if err != nil {
+		return nil, err
+	}
+	return e.Encode(), nil
+}
+
+// redeem opens a cookie the way both listeners do (server_ip.go, server_scion.go): decode, look the key up by the
+// identifier the cookie carries, decrypt. (The listeners' lookup is Provider.Lookup where the tree has it, else
+// Provider.Get of the decoded identifier.)
+func redeem(p *ntske.Provider, cookie []byte) string {
+	var e ntske.EncryptedServerCookie
+	if err := e.Decode(cookie); err != nil {
+		return "cookie does not decode: " + err.Error()
+	}
+	var k ntske.Key
+	var ok bool
+	if l, has := any(p).(interface {
+		Lookup(uint16) (ntske.Key, bool)
+	}); has {
+		k, ok = l.Lookup(e.ID)
+	} else {
+		k, ok = p.Get(int(e.ID))
+	}
+	if !ok {
+		return fmt.Sprintf("no valid key for the identifier %d the cookie carries", e.ID)
+	}
+	sc, err := e.Decrypt(k.Value)
+	if err != nil {
+		return fmt.Sprintf("cookie does not open under key %d: %v", k.ID, err)
+	}
+	if !bytes.Equal(sc.C2S, sessC2S) || !bytes.Equal(sc.S2C, sessS2C) {
+		return "cookie opens to other session keys"
+	}
+	return ""
+}
+
 func longRun(t *testing.T, pattern int, jitter []int64, rotations int) (rmsg string, n int) {
 	var mu sync.Mutex
 	var msg string
@@ -43,6 +87,12 @@ func longRun(t *testing.T, pattern int, jitter []int64, rotations int) (rmsg str
 			gen time.Time
 		}
 		var window []old
+		type issued struct {
+			cookie []byte
+			at     time.Time
+			id     int
+		}
+		var cookies []issued // issued less than two days ago
 		last := -1
 		start := time.Now()
 		for rot := 0; rot < rotations && msg == "" && time.Since(start) < 250*365*24*time.Hour; {
@@ -89,6 +139,23 @@ func longRun(t *testing.T, pattern int, jitter []int64, rotations int) (rmsg str
 			if g, ok := p.Get(k.ID); !ok || g.ID != k.ID {
 				msg = fmt.Sprintf("step %d: Get(%d) of the key just handed out failed", steps, k.ID)
 				return
+			}
+			// "a cookie remains usable for at least two days after it was issued": one cookie per call, redeemed
+			// right away and again at every later call that falls within two days of its issue
+			ck, err := issue(k)
+			if err != nil {
+				msg = fmt.Sprintf("step %d: sealing a cookie under key %d failed: %v", steps, k.ID, err)
+				return
+			}
+			cookies = append(cookies, issued{ck, now, k.ID})
+			for len(cookies) > 0 && now.Sub(cookies[0].at) > 48*time.Hour {
+				cookies = cookies[1:]
+			}
+			for _, c := range cookies {
+				if r := redeem(p, c.cookie); r != "" {
+					msg = fmt.Sprintf("step %d (rotation %d): a cookie issued %v ago under key %d cannot be redeemed: %s", steps, rot, now.Sub(c.at), c.id, r)
+					return
+				}
 			}
 			for len(window) > 0 && now.Sub(window[0].gen) > validity {
 				if _, ok := p.Get(window[0].id); ok {
